@@ -1,23 +1,43 @@
 // correspondence harness for the usage listing of celma::prog_args::Handler (C18)
 //
-// Drives a real Handler (flag hfUsageCont, output and error output into string streams):
+// Drives real Handler objects (flag hfUsageCont, output and error output into string streams): a main handler
+// and any number of sub-group handlers constructed with Handler( main_ah, flags):
 //
-//   us begin flags=<f1,f2,..|->      new Handler; flags: hshort hlong harg ahidden adepr ushort ulong
+//   us begin flags=<f1,f2,..|->      new main Handler; flags: hshort hlong harg ahidden adepr ushort ulong
 //                                    uhidden udepr noabbr (hfUsageCont is always set)       -> ok
+//   us sub flags=<f1,f2,..|->        new Handler( main, flags): sub-group handler number 0, 1, ..             -> ok
 //   us arg key=<spec> kind=int|flag|str [value=<int|hex>] [default=0|1] [mandatory=1] [hidden=1]
 //          [deprecated=1] [replaced=<hex>] [check=lower:N;upper:N;range:A:B] [requires=<k>] [excludes=<k>]
-//          desc=<hex>                addArgument() + the modifiers in exactly this order      -> ok | throw <class>
-//   us linelen <n>                   setUsageLineLength()                                     -> ok | throw <class>
+//          desc=<hex>                main.addArgument() + the modifiers in exactly this order -> ok | throw <class>
+//   us subarg k=<i> key=... (as arg) sub_i.addArgument() + modifiers                          -> ok | throw <class>
+//   us group k=<i> key=<spec> [default= mandatory= hidden= deprecated= replaced= check= requires= excludes=]
+//          desc=<hex>                main.addArgument( key, sub_i, desc) + modifiers (a sub-group handler is
+//                                    attached once)                                           -> ok | throw <class>
+//   us linelen <n>                   main.setUsageLineLength()                                -> ok | throw <class>
+//   us sublinelen k=<i> <n>          sub_i.setUsageLineLength()                               -> ok | throw <class>
 //   us usage [print-hidden] [print-deprecated] [help-short] [help-long]
-//                                    evalArguments( prog --<word>.. -h|--help): the standard arguments switch
+//                                    main.evalArguments( prog --<word>.. -h|--help): the standard arguments switch
 //                                    the usage parameters, the help argument prints the usage
 //                                    -> ok text=<hex> | throw <class>
 //                                    -> !! <failed clauses> text=<hex>   (membership oracle on the real text alone)
+//   us subusage k=<i> [pre=<w,w>] [in=<w,w>]
+//                                    main.evalArguments( prog --<pre>.. <-g|--group> --<in>.. -h|--help): the
+//                                    standard arguments of the main handler, the sub-group argument, standard
+//                                    arguments of the sub-group handler, then ITS help argument; same answers,
+//                                    the oracle is evaluated on the sub-group's listing
 //   us helparg <key>                 evalArguments( prog --help-arg <key>)     -> ok out=<hex> err=<hex> | throw <class>
+//   us helparg <gkey>/<key>          the sub-group form of --help-arg on the main handler (same answers)
+//   us subhelparg k=<i> <key>        evalArguments( prog <-g|--group> --help-arg <key>): help-arg of sub_i
+//
+// An answer is `ok` when the handler that was asked finished its usage / help (Handler::usagePrinted()); an
+// exception of the main handler's final checks afterwards (e.g. a mandatory argument of the main handler that
+// was not used on this command line) belongs to the evaluation, not to the listing.
 //
 // The oracle parses the usage text back (caption lines, entry lines = 3 blanks + non-blank, everything else
 // belongs to the entry above) and checks what C18 states, against the flags read back from the real argument
-// objects (isMandatory()/isHidden()/isDeprecated()/key()): see design_notes/usage.md.
+// objects (isMandatory()/isHidden()/isDeprecated()/key()) and the display settings that were REQUESTED (constructor
+// flags of the main handler, hfUsageDeprecated of a sub-group handler, standard arguments on the command line):
+// see design_notes/usage.md.
 #include "common.hpp"
 
 #include <deque>
@@ -31,6 +51,12 @@ using celma::prog_args::detail::TypedArgBase;
 
 namespace {
 
+/// Handler::usagePrinted() is protected
+struct XHandler : public Handler {
+   using Handler::Handler;
+   using Handler::usagePrinted;
+};
+
 struct ArgRec {
    TypedArgBase* obj = nullptr;   // nullptr: standard argument, never hidden/deprecated/mandatory
    char          chr = 0;
@@ -39,17 +65,26 @@ struct ArgRec {
    bool          added = false;
 };
 
+/// one handler: the main one or a sub-group handler
+struct Hdl {
+   std::unique_ptr<XHandler> ah;
+   std::vector<ArgRec>      args;
+   bool                     hshort = false, hlong = false, harg = false, ahid = false, adep = false, ush = false, ulo = false;
+   bool                     deprValue = true;   // what its --print-deprecated stores (negation of the setting at definition)
+   bool                     attached = false;   // sub-group handler: entered by a sub-group argument of the main handler
+   std::string              enterKey;           // "-g" / "--group"
+};
+
 struct State {
    std::unique_ptr<std::ostringstream> out, err;
-   std::unique_ptr<Handler>            ah;
+   Hdl                                 main;
+   std::vector<std::unique_ptr<Hdl>>   subs;
    std::deque<int>                     ints;
    std::deque<std::string>             strs;
    std::deque<std::unique_ptr<bool>>   bools;
-   std::vector<ArgRec>                 args;
-   bool                                hshort = false, hlong = false;
-   bool                                printHidden = false, printDepr = false, uhidden = false, udepr = false;
+   // the display settings requested so far (the oracle's own book-keeping, never read from UsageParams)
+   bool                                printHidden = false, printDepr = false, uhidden = false;
    int                                 contents = 0;   // 0 all, 1 short, 2 long
-   int                                 flagset = 0;
 };
 
 State* st = nullptr;
@@ -81,10 +116,43 @@ std::vector<std::string> linesOf(const std::string& s) {
    return out;
 }
 
-void stdArg(char c, const std::string& w, const std::string& d) {
+void stdArg(Hdl& h, char c, const std::string& w, const std::string& d) {
    ArgRec r;
    r.chr = c; r.word = w; r.desc = d; r.added = true;
-   st->args.push_back(r);
+   h.args.push_back(r);
+}
+
+/// the standard arguments, in the order handleStartFlags()/the constructor define them (oracle only)
+void stdArgs(Hdl& h) {
+   if (h.hshort || h.hlong) stdArg(h, h.hshort ? 'h' : 0, h.hlong ? "help" : "", "Prints the program usage.");
+   if (h.harg) stdArg(h, 0, "help-arg", "Prints the usage for the given argument.");
+   if (h.adep) stdArg(h, 0, "print-deprecated", "Also print deprecated and replaced arguments in the usage.");
+   if (h.ush) stdArg(h, 0, "help-short", "Only print arguments with their short key in the usage.");
+   if (h.ulo) stdArg(h, 0, "help-long", "Only print arguments with their long key in the usage.");
+   if (h.ahid) stdArg(h, 0, "print-hidden", "Also print hidden arguments in the usage.");
+}
+
+/// flags=<..> -> handler flag set; main: hfArgHidden / hfUsageHidden count, sub-group constructor: they are
+/// passed on, the constructor ignores them (documented)
+bool parseFlags(const std::string& fl, bool isMain, Hdl& h, int& fs, bool& uhid, bool& udep) {
+   uhid = udep = false;
+   if (fl == "-") return true;
+   std::istringstream is(fl);
+   std::string        f;
+   while (std::getline(is, f, ',')) {
+      if (f == "hshort") { fs |= Handler::hfHelpShort; h.hshort = true; }
+      else if (f == "hlong") { fs |= Handler::hfHelpLong; h.hlong = true; }
+      else if (f == "harg") { fs |= Handler::hfHelpArg; h.harg = true; }
+      else if (f == "ahidden") { fs |= Handler::hfArgHidden; if (isMain) h.ahid = true; }
+      else if (f == "adepr") { fs |= Handler::hfArgDeprecated; h.adep = true; }
+      else if (f == "ushort") { fs |= Handler::hfUsageShort; h.ush = true; }
+      else if (f == "ulong") { fs |= Handler::hfUsageLong; h.ulo = true; }
+      else if (f == "uhidden") { fs |= Handler::hfUsageHidden; if (isMain) uhid = true; }
+      else if (f == "udepr") { fs |= Handler::hfUsageDeprecated; udep = true; }
+      else if (f == "noabbr") fs |= Handler::hfNoAbbr;
+      else return false;
+   }
+   return true;
 }
 
 bool isNum(const std::string& s) {
@@ -98,7 +166,7 @@ bool isNum(const std::string& s) {
 struct Entry { int section; std::string key; Words words; };
 
 /// membership oracle, evaluated on the real text and the real argument objects only
-std::string oracle(const std::string& text) {
+std::string oracle(const std::string& text, const Hdl& hdl) {
    std::string bad;
    const auto  lines = linesOf(text);
    std::vector<Entry> found;
@@ -120,7 +188,7 @@ std::string oracle(const std::string& text) {
    }
    // expected, from the real objects
    std::vector<const ArgRec*> exp[2];
-   for (auto& a : st->args) {
+   for (auto& a : hdl.args) {
       if (!a.added) continue;
       const bool mand = a.obj && a.obj->isMandatory();
       const bool hid = a.obj && a.obj->isHidden();
@@ -177,11 +245,150 @@ std::string evalArgs(const std::vector<std::string>& words) {
    std::vector<char*> argv;
    for (auto& s : store) argv.push_back(const_cast<char*>(s.c_str()));
    argv.push_back(nullptr);
-   return vh::guarded([&] { st->ah->evalArguments(static_cast<int>(store.size()), argv.data()); });
+   return vh::guarded([&] { st->main.ah->evalArguments(static_cast<int>(store.size()), argv.data()); });
 }
 
-std::vector<std::vector<std::string>> history;   // begin/arg/linelen lines of the current case
+std::vector<std::vector<std::string>> history;   // configuration lines of the current case
 bool                                  queried = false;
+
+bool isIdx(const std::string& s) {
+   if (s.empty() || s.size() > 4) return false;
+   for (char c : s) if (c < '0' || c > '9') return false;
+   return true;
+}
+
+/// k=<i> -> sub-group handler i, or nullptr
+Hdl* subOf(const std::vector<std::string>& t) {
+   const std::string k = vh::kv(t, "k", "");
+   if (!isIdx(k)) return nullptr;
+   const size_t i = std::stoul(k);
+   return i < st->subs.size() ? st->subs[i].get() : nullptr;
+}
+
+bool anyPrinted() {
+   if (st->main.ah->usagePrinted()) return true;
+   for (auto& s : st->subs) if (s->ah->usagePrinted()) return true;
+   return false;
+}
+
+/// addArgument() + modifiers on handler `h`; `group` != nullptr: the sub-group argument entering that handler
+std::string defineArg(Hdl& h, const std::vector<std::string>& t, Hdl* group) {
+   const std::string key = vh::kv(t, "key", ""), kind = group ? "group" : vh::kv(t, "kind", "");
+   std::string       desc, repl;
+   if (key.empty() || !vh::hexDecodeStr(vh::kv(t, "desc", "x"), desc)) return "bad-op";
+   if (group && !vh::kv(t, "kind", "").empty()) return "bad-op";
+   const std::string value = vh::kv(t, "value", "");
+   const std::string dflt = vh::kv(t, "default", "");
+   const bool        hasRepl = !vh::kv(t, "replaced", "").empty();
+   if (hasRepl && !vh::hexDecodeStr(vh::kv(t, "replaced", ""), repl)) return "bad-op";
+   const std::string checks = vh::kv(t, "check", "");
+   const std::string req = vh::kv(t, "requires", ""), excl = vh::kv(t, "excludes", "");
+   for (size_t i = 2; i < t.size(); ++i) {
+      const std::string k = t[i].substr(0, t[i].find('='));
+      if (k != "key" && k != "kind" && k != "value" && k != "default" && k != "mandatory" && k != "hidden"
+          && k != "deprecated" && k != "replaced" && k != "check" && k != "requires" && k != "excludes" && k != "desc"
+          && k != "k")
+         return "bad-op";
+   }
+   for (const char* b : {"mandatory", "hidden", "deprecated", "default"}) {
+      const std::string v = vh::kv(t, b, "");
+      if (!v.empty() && v != "0" && v != "1") return "bad-op";
+   }
+   // parse the checks first: a malformed line must not leave a half-built argument
+   struct Chk { std::string kind; int a, b; };
+   std::vector<Chk> chks;
+   if (!checks.empty()) {
+      std::istringstream is(checks);
+      std::string        c;
+      while (std::getline(is, c, ';')) {
+         std::istringstream cs(c);
+         std::string        k, a, b;
+         std::getline(cs, k, ':'); std::getline(cs, a, ':'); std::getline(cs, b, ':');
+         if (k == "lower" || k == "upper") { if (!isNum(a) || !b.empty()) return "bad-op"; chks.push_back({k, std::stoi(a), 0}); }
+         else if (k == "range") { if (!isNum(a) || !isNum(b)) return "bad-op"; chks.push_back({k, std::stoi(a), std::stoi(b)}); }
+         else return "bad-op";
+      }
+   }
+   ArgRec rec;
+   rec.desc = desc;
+   if (kind == "int") {
+      if (!value.empty() && !isNum(value)) return "bad-op";
+      st->ints.push_back(value.empty() ? 0 : std::stoi(value));
+   } else if (kind == "str") {
+      std::string v;
+      if (!value.empty() && !vh::hexDecodeStr(value, v)) return "bad-op";
+      st->strs.push_back(v);
+   } else if (kind == "flag") {
+      if (!value.empty()) return "bad-op";
+      st->bools.emplace_back(new bool(false));
+   } else if (kind == "group") {
+      if (!value.empty()) return "bad-op";
+   } else
+      return "bad-op";
+   h.args.push_back(rec);
+   const size_t idx = h.args.size() - 1;
+   const std::string thrown = vh::guarded([&] {
+      TypedArgBase* p = nullptr;
+      if (kind == "int") p = h.ah->addArgument(key, DEST_VAR(st->ints.back()), desc);
+      else if (kind == "str") p = h.ah->addArgument(key, DEST_VAR(st->strs.back()), desc);
+      else if (kind == "flag") p = h.ah->addArgument(key, DEST_VAR(*st->bools.back()), desc);
+      else p = h.ah->addArgument(key, *group->ah, desc);
+      ArgRec& r = h.args[idx];
+      r.obj = p;
+      r.chr = p->key().argChar();
+      r.word = p->key().argString();
+      r.added = true;
+      if (group) {
+         group->attached = true;
+         group->enterKey = r.chr ? std::string("-") + r.chr : "--" + r.word;
+      }
+      if (!dflt.empty()) p->setPrintDefault(dflt == "1");
+      if (vh::kv(t, "mandatory", "") == "1") p->setIsMandatory();
+      if (vh::kv(t, "hidden", "") == "1") p->setIsHidden();
+      if (vh::kv(t, "deprecated", "") == "1") p->setIsDeprecated();
+      if (hasRepl) p->setReplacedBy(repl);
+      for (auto& c : chks) {
+         if (c.kind == "lower") p->addCheck(celma::prog_args::lower(c.a));
+         else if (c.kind == "upper") p->addCheck(celma::prog_args::upper(c.a));
+         else p->addCheck(celma::prog_args::range(c.a, c.b));
+      }
+      if (!req.empty()) p->addConstraint(celma::prog_args::requiresArg(req));
+      if (!excl.empty()) p->addConstraint(celma::prog_args::excludes(excl));
+   });
+   return thrown.empty() ? "ok" : thrown;
+}
+
+bool isSwitch(const std::string& w) {
+   return w == "print-hidden" || w == "print-deprecated" || w == "help-short" || w == "help-long";
+}
+
+bool defines(const Hdl& h, const std::string& w) {
+   return (w == "print-hidden" && h.ahid) || (w == "print-deprecated" && h.adep) || (w == "help-short" && h.ush)
+          || (w == "help-long" && h.ulo);
+}
+
+/// a standard argument of handler `h` was used: the setting that is requested now
+void requested(const Hdl& h, const std::string& w) {
+   // a bool flag argument stores the negation of its destination's value at definition time
+   if (w == "print-hidden") st->printHidden = !st->uhidden;
+   else if (w == "print-deprecated") st->printDepr = h.deprValue;
+   else if (w == "help-short") st->contents = 1;
+   else st->contents = 2;
+}
+
+bool splitList(const std::string& s, std::vector<std::string>& out) {
+   if (s.empty()) return true;
+   std::istringstream is(s);
+   std::string        w;
+   while (std::getline(is, w, ',')) { if (!isSwitch(w)) return false; out.push_back(w); }
+   return s.back() != ',';
+}
+
+bool keyOk(const std::string& k) {
+   if (k.empty() || k[0] == '-') return false;
+   for (char c : k) if (c == ' ' || c == '/') return false;
+   return true;
+}
 
 std::string step1(const std::vector<std::string>& t) {
    if (t.size() < 2 || t[0] != "us") return "bad-op";
@@ -190,152 +397,126 @@ std::string step1(const std::vector<std::string>& t) {
       st = new State;
       std::string fl = vh::kv(t, "flags", "x");
       if (fl == "x") return "bad-op";
-      int fs = Handler::hfUsageCont;
-      bool harg = false, ahid = false, adep = false, ush = false, ulo = false;
-      if (fl != "-") {
-         std::istringstream is(fl);
-         std::string        f;
-         while (std::getline(is, f, ',')) {
-            if (f == "hshort") { fs |= Handler::hfHelpShort; st->hshort = true; }
-            else if (f == "hlong") { fs |= Handler::hfHelpLong; st->hlong = true; }
-            else if (f == "harg") { fs |= Handler::hfHelpArg; harg = true; }
-            else if (f == "ahidden") { fs |= Handler::hfArgHidden; ahid = true; }
-            else if (f == "adepr") { fs |= Handler::hfArgDeprecated; adep = true; }
-            else if (f == "ushort") { fs |= Handler::hfUsageShort; ush = true; }
-            else if (f == "ulong") { fs |= Handler::hfUsageLong; ulo = true; }
-            else if (f == "uhidden") { fs |= Handler::hfUsageHidden; st->printHidden = st->uhidden = true; }
-            else if (f == "udepr") { fs |= Handler::hfUsageDeprecated; st->printDepr = st->udepr = true; }
-            else if (f == "noabbr") fs |= Handler::hfNoAbbr;
-            else return "bad-op";
-         }
-      }
-      st->flagset = fs;
+      int  fs = Handler::hfUsageCont;
+      bool uhid, udep;
+      if (!parseFlags(fl, true, st->main, fs, uhid, udep)) { delete st; st = nullptr; return "bad-op"; }
+      st->printHidden = st->uhidden = uhid;
+      st->printDepr = udep;
+      st->main.deprValue = !udep;
       st->out.reset(new std::ostringstream);
       st->err.reset(new std::ostringstream);
-      const std::string thrown = vh::guarded([&] { st->ah.reset(new Handler(*st->out, *st->err, fs)); });
+      const std::string thrown = vh::guarded([&] { st->main.ah.reset(new XHandler(*st->out, *st->err, fs)); });
       if (!thrown.empty()) return thrown;
-      // the standard arguments, in the order handleStartFlags()/the constructor define them (oracle only)
-      if (st->hshort || st->hlong) stdArg(st->hshort ? 'h' : 0, st->hlong ? "help" : "", "Prints the program usage.");
-      if (harg) stdArg(0, "help-arg", "Prints the usage for the given argument.");
-      if (adep) stdArg(0, "print-deprecated", "Also print deprecated and replaced arguments in the usage.");
-      if (ush) stdArg(0, "help-short", "Only print arguments with their short key in the usage.");
-      if (ulo) stdArg(0, "help-long", "Only print arguments with their long key in the usage.");
-      if (ahid) stdArg(0, "print-hidden", "Also print hidden arguments in the usage.");
+      stdArgs(st->main);
       return "ok";
    }
-   if (!st || !st->ah) return "bad-op";
+   if (!st || !st->main.ah) return "bad-op";
+   if (t[1] == "sub" && t.size() == 3) {
+      std::string fl = vh::kv(t, "flags", "x");
+      if (fl == "x") return "bad-op";
+      std::unique_ptr<Hdl> h(new Hdl);
+      int  fs = 0;
+      bool uhid, udep;
+      if (!parseFlags(fl, false, *h, fs, uhid, udep)) return "bad-op";
+      const std::string thrown = vh::guarded([&] { h->ah.reset(new XHandler(static_cast<Handler&>(*st->main.ah), fs)); });
+      if (!thrown.empty()) return thrown;
+      // hfUsageDeprecated of a sub-group handler requests the display of deprecated arguments (for the tree:
+      // the settings are shared); its --print-deprecated is defined after that
+      if (udep) st->printDepr = true;
+      h->deprValue = !st->printDepr;
+      stdArgs(*h);
+      st->subs.push_back(std::move(h));
+      return "ok";
+   }
    if (t[1] == "arg") {
-      const std::string key = vh::kv(t, "key", ""), kind = vh::kv(t, "kind", "");
-      std::string       desc, repl;
-      if (key.empty() || !vh::hexDecodeStr(vh::kv(t, "desc", "x"), desc)) return "bad-op";
-      const std::string value = vh::kv(t, "value", "");
-      const std::string dflt = vh::kv(t, "default", "");
-      const bool        hasRepl = !vh::kv(t, "replaced", "").empty();
-      if (hasRepl && !vh::hexDecodeStr(vh::kv(t, "replaced", ""), repl)) return "bad-op";
-      const std::string checks = vh::kv(t, "check", "");
-      const std::string req = vh::kv(t, "requires", ""), excl = vh::kv(t, "excludes", "");
-      for (size_t i = 2; i < t.size(); ++i) {
-         const std::string k = t[i].substr(0, t[i].find('='));
-         if (k != "key" && k != "kind" && k != "value" && k != "default" && k != "mandatory" && k != "hidden"
-             && k != "deprecated" && k != "replaced" && k != "check" && k != "requires" && k != "excludes" && k != "desc")
-            return "bad-op";
-      }
-      for (const char* b : {"mandatory", "hidden", "deprecated", "default"}) {
-         const std::string v = vh::kv(t, b, "");
-         if (!v.empty() && v != "0" && v != "1") return "bad-op";
-      }
-      // parse the checks first: a malformed line must not leave a half-built argument
-      struct Chk { std::string kind; int a, b; };
-      std::vector<Chk> chks;
-      if (!checks.empty()) {
-         std::istringstream is(checks);
-         std::string        c;
-         while (std::getline(is, c, ';')) {
-            std::istringstream cs(c);
-            std::string        k, a, b;
-            std::getline(cs, k, ':'); std::getline(cs, a, ':'); std::getline(cs, b, ':');
-            if (k == "lower" || k == "upper") { if (!isNum(a) || !b.empty()) return "bad-op"; chks.push_back({k, std::stoi(a), 0}); }
-            else if (k == "range") { if (!isNum(a) || !isNum(b)) return "bad-op"; chks.push_back({k, std::stoi(a), std::stoi(b)}); }
-            else return "bad-op";
-         }
-      }
-      ArgRec rec;
-      rec.desc = desc;
-      if (kind == "int") {
-         if (!value.empty() && !isNum(value)) return "bad-op";
-         st->ints.push_back(value.empty() ? 0 : std::stoi(value));
-      } else if (kind == "str") {
-         std::string v;
-         if (!value.empty() && !vh::hexDecodeStr(value, v)) return "bad-op";
-         st->strs.push_back(v);
-      } else if (kind == "flag") {
-         if (!value.empty()) return "bad-op";
-         st->bools.emplace_back(new bool(false));
-      } else
-         return "bad-op";
-      st->args.push_back(rec);
-      const size_t idx = st->args.size() - 1;
-      const std::string thrown = vh::guarded([&] {
-         TypedArgBase* p = nullptr;
-         if (kind == "int") p = st->ah->addArgument(key, DEST_VAR(st->ints.back()), desc);
-         else if (kind == "str") p = st->ah->addArgument(key, DEST_VAR(st->strs.back()), desc);
-         else p = st->ah->addArgument(key, DEST_VAR(*st->bools.back()), desc);
-         ArgRec& r = st->args[idx];
-         r.obj = p;
-         r.chr = p->key().argChar();
-         r.word = p->key().argString();
-         r.added = true;
-         if (!dflt.empty()) p->setPrintDefault(dflt == "1");
-         if (vh::kv(t, "mandatory", "") == "1") p->setIsMandatory();
-         if (vh::kv(t, "hidden", "") == "1") p->setIsHidden();
-         if (vh::kv(t, "deprecated", "") == "1") p->setIsDeprecated();
-         if (hasRepl) p->setReplacedBy(repl);
-         for (auto& c : chks) {
-            if (c.kind == "lower") p->addCheck(celma::prog_args::lower(c.a));
-            else if (c.kind == "upper") p->addCheck(celma::prog_args::upper(c.a));
-            else p->addCheck(celma::prog_args::range(c.a, c.b));
-         }
-         if (!req.empty()) p->addConstraint(celma::prog_args::requiresArg(req));
-         if (!excl.empty()) p->addConstraint(celma::prog_args::excludes(excl));
-      });
-      return thrown.empty() ? "ok" : thrown;
+      if (!vh::kv(t, "k", "").empty()) return "bad-op";
+      return defineArg(st->main, t, nullptr);
+   }
+   if (t[1] == "subarg") {
+      Hdl* h = subOf(t);
+      if (!h) return "bad-op";
+      return defineArg(*h, t, nullptr);
+   }
+   if (t[1] == "group") {
+      Hdl* h = subOf(t);
+      if (!h || h->attached) return "bad-op";
+      return defineArg(st->main, t, h);
    }
    if (t[1] == "linelen" && t.size() == 3) {
       if (!isNum(t[2])) return "bad-op";
-      const std::string thrown = vh::guarded([&] { st->ah->setUsageLineLength(std::stoi(t[2])); });
+      const std::string thrown = vh::guarded([&] { st->main.ah->setUsageLineLength(std::stoi(t[2])); });
+      return thrown.empty() ? "ok" : thrown;
+   }
+   if (t[1] == "sublinelen" && t.size() == 4) {
+      Hdl* h = subOf({t[2]});
+      if (!h || !isNum(t[3])) return "bad-op";
+      const std::string thrown = vh::guarded([&] { h->ah->setUsageLineLength(std::stoi(t[3])); });
       return thrown.empty() ? "ok" : thrown;
    }
    if (t[1] == "usage") {
       std::vector<std::string> words;
       for (size_t i = 2; i < t.size(); ++i) {
-         if (t[i] != "print-hidden" && t[i] != "print-deprecated" && t[i] != "help-short" && t[i] != "help-long")
-            return "bad-op";
+         if (!isSwitch(t[i]) || !defines(st->main, t[i])) return "bad-op";
          words.push_back("--" + t[i]);
       }
-      if (!st->hshort && !st->hlong) return "bad-op";
-      words.push_back(st->hshort ? "-h" : "--help");
+      if (!st->main.hshort && !st->main.hlong) return "bad-op";
+      words.push_back(st->main.hshort ? "-h" : "--help");
       st->out->str("");
       st->err->str("");
       const std::string thrown = evalArgs(words);
       const std::string text = st->out->str();
       if (!thrown.empty()) return thrown;   // (what was written before the exception is not part of the property)
-      for (size_t i = 2; i < t.size(); ++i) {
-         // a bool flag argument stores the negation of its destination's value at definition time
-         if (t[i] == "print-hidden") st->printHidden = !st->uhidden;
-         else if (t[i] == "print-deprecated") st->printDepr = !st->udepr;
-         else if (t[i] == "help-short") st->contents = 1;
-         else st->contents = 2;
-      }
+      for (size_t i = 2; i < t.size(); ++i) requested(st->main, t[i]);
       if (!st->err->str().empty()) return "!! error-output text=" + vh::hexOut(text) + " err=" + vh::hexOut(st->err->str());
-      const std::string bad = oracle(text);
+      const std::string bad = oracle(text, st->main);
+      if (!bad.empty()) return "!!" + bad + " text=" + vh::hexOut(text);
+      return "ok text=" + vh::hexOut(text);
+   }
+   if (t[1] == "subusage") {
+      Hdl* h = subOf(t);
+      if (!h || !h->attached || (!h->hshort && !h->hlong)) return "bad-op";
+      for (size_t i = 2; i < t.size(); ++i) {
+         const std::string k = t[i].substr(0, t[i].find('='));
+         if (k != "k" && k != "pre" && k != "in") return "bad-op";
+      }
+      std::vector<std::string> pre, in, words;
+      if (!splitList(vh::kv(t, "pre", ""), pre) || !splitList(vh::kv(t, "in", ""), in)) return "bad-op";
+      for (auto& w : pre) { if (!defines(st->main, w)) return "bad-op"; words.push_back("--" + w); }
+      words.push_back(h->enterKey);
+      for (auto& w : in) { if (w == "print-hidden" || !defines(*h, w)) return "bad-op"; words.push_back("--" + w); }
+      words.push_back(h->hshort ? "-h" : "--help");
+      st->out->str("");
+      st->err->str("");
+      const std::string thrown = evalArgs(words);
+      const std::string text = st->out->str();
+      // the sub-group handler finished its usage; what the main handler's final checks say afterwards
+      // (mandatory arguments of the main handler not used here) is not part of the listing
+      if (!h->ah->usagePrinted()) return thrown.empty() ? "!! no-usage text=" + vh::hexOut(text) : thrown;
+      for (auto& w : pre) requested(st->main, w);
+      for (auto& w : in) requested(*h, w);
+      if (!st->err->str().empty()) return "!! error-output text=" + vh::hexOut(text) + " err=" + vh::hexOut(st->err->str());
+      const std::string bad = oracle(text, *h);
       if (!bad.empty()) return "!!" + bad + " text=" + vh::hexOut(text);
       return "ok text=" + vh::hexOut(text);
    }
    if (t[1] == "helparg" && t.size() == 3) {
+      if (!st->main.harg) return "bad-op";
+      const size_t sl = t[2].find('/');
+      if (sl == std::string::npos) { if (!keyOk(t[2])) return "bad-op"; }
+      else if (!keyOk(t[2].substr(0, sl)) || !keyOk(t[2].substr(sl + 1))) return "bad-op";
       st->out->str("");
       st->err->str("");
       const std::string thrown = evalArgs({"--help-arg", t[2]});
-      if (!thrown.empty()) return thrown;
+      if (!thrown.empty() && !anyPrinted()) return thrown;
+      return "ok out=" + vh::hexOut(st->out->str()) + " err=" + vh::hexOut(st->err->str());
+   }
+   if (t[1] == "subhelparg" && t.size() == 4) {
+      Hdl* h = subOf({t[2]});
+      if (!h || !h->attached || !h->harg || !keyOk(t[3])) return "bad-op";
+      st->out->str("");
+      st->err->str("");
+      const std::string thrown = evalArgs({h->enterKey, "--help-arg", t[3]});
+      if (!h->ah->usagePrinted()) return thrown.empty() ? "!! no-help out=" + vh::hexOut(st->out->str()) : thrown;
       return "ok out=" + vh::hexOut(st->out->str()) + " err=" + vh::hexOut(st->err->str());
    }
    return "bad-op";
@@ -352,7 +533,7 @@ std::string step(const std::vector<std::string>& t, const std::string&) {
       return "ok";
    }
    if (t.size() < 2 || t[0] != "us") return "bad-op";
-   const bool query = (t[1] == "usage" || t[1] == "helparg");
+   const bool query = (t[1] == "usage" || t[1] == "helparg" || t[1] == "subusage" || t[1] == "subhelparg");
    if (t[1] == "begin") { history.clear(); queried = false; }
    if (queried) {
       for (auto& h : history) step1(h);
